@@ -326,7 +326,7 @@ PROPS["C08"] = dict(
     rule="one evaluation = one workload with all its allocation indices (labels fault_reported + fault_absorbed count the individual faulted runs); non-trivial = the workload has at least one fault index > 0 (partial state to unwind) - counted per workload, distinct by workload hash; the number of individual faulted runs is labels.fault_reported + labels.fault_absorbed",
     quick=[dict(mode="faults", cases=4000, workers=8, maxbytes=2000)],
     thorough=[dict(mode="faults", cases=300000, workers=16, maxbytes=4000), dict(mode="faults", fuzz=True, secs=300, jobs=8, max_len=512)],
-    min_labels=dict(quick=dict(fault_reported=12000, fault_absorbed=500, double_fault=3000, parse=200, serialize=150, patch_inplace=80, object_add=150)),
+    min_labels=dict(quick=dict(fault_reported=12000, fault_absorbed=500, double_fault=3000, parse=200, serialize=150, patch_inplace=80, object_add=150, printbuf=60, to_fd=50, constructors=30, object_add_ex=50)),
     assumptions=["only allocation calls made directly by json-c are failed", "at most 3000 indices per workload"],
 )
 
